@@ -19,6 +19,9 @@ def close(got, exp):
 
 def do_probe_stats(world, rep, op):
     g, m = rep.g, rep.m
+    if world.poke:
+        from . import oracles as _o
+        _o.poke_observers(rep.g, *_o.window(rep.m))
     require_source_ok(world, rep)
     tag = world.focus if world.focus == 'C17' else 'C17'
     if not m.removal:
